@@ -176,14 +176,52 @@ func wrapConsts(repo string, add func(string, int64, string)) error {
 	if cf := uf.fn("", "copyFileToLayer"); cf == nil {
 		return fmt.Errorf("unionFile.go: copyFileToLayer not found")
 	} else {
-		andnot := false
+		// flag&^os.O_APPEND (an expression) or flag &^= os.O_APPEND (a statement): the operand is O_APPEND
+		isSel := func(e ast.Expr, name string) bool {
+			se, ok := e.(*ast.SelectorExpr)
+			return ok && se.Sel.Name == name
+		}
+		andnot, rdwr := false, false
 		ast.Inspect(cf, func(n ast.Node) bool {
-			if be, ok := n.(*ast.BinaryExpr); ok && be.Op == token.AND_NOT {
-				andnot = true
+			switch x := n.(type) {
+			case *ast.BinaryExpr:
+				if x.Op == token.AND_NOT && isSel(x.Y, "O_APPEND") {
+					andnot = true
+				}
+			case *ast.AssignStmt:
+				if x.Tok == token.AND_NOT_ASSIGN && len(x.Rhs) == 1 && isSel(x.Rhs[0], "O_APPEND") {
+					andnot = true
+				}
+			case *ast.IfStmt:
+				// if flag&os.O_WRONLY != 0 { flag = flag&^os.O_WRONLY | os.O_RDWR }
+				condW, bodyRW := false, false
+				ast.Inspect(x.Cond, func(m ast.Node) bool {
+					if e, ok := m.(ast.Expr); ok && isSel(e, "O_WRONLY") {
+						condW = true
+					}
+					return true
+				})
+				ast.Inspect(x.Body, func(m ast.Node) bool {
+					if as, ok := m.(*ast.AssignStmt); ok && len(as.Lhs) == 1 {
+						if id, ok := as.Lhs[0].(*ast.Ident); ok && id.Name == "flag" {
+							ast.Inspect(as.Rhs[0], func(k ast.Node) bool {
+								if e, ok := k.(ast.Expr); ok && isSel(e, "O_RDWR") {
+									bodyRW = true
+								}
+								return true
+							})
+						}
+					}
+					return true
+				})
+				if condW && bodyRW {
+					rdwr = true
+				}
 			}
 			return true
 		})
 		add("copyfiletolayer_clears_append", b2i(andnot), "unionFile.go copyFileToLayer: 1 iff the base is opened with flag&^os.O_APPEND")
+		add("copyfiletolayer_reads_through_rdwr", b2i(rdwr), "unionFile.go copyFileToLayer: 1 iff a write-only access mode is replaced by O_RDWR for the handle the copy reads from (not observable on MemMapFs, whose write-only handles can be read; the operating-system scenario of C11 exercises it)")
 	}
 	fd = uf.fn("UnionFile", "Readdir")
 	if fd == nil {
